@@ -377,10 +377,18 @@ func c14Directives(r *rep.Run, w *c14worker) {
 			want := c14Sig(w, false, d+body)
 			// the same directive with extra layout in front / between lines
 			variants := []string{"\n\n" + d + body, " \t" + strings.ReplaceAll(d, "\n", "\n\n  ") + body, ";plain comment\n" + d + ";another\n" + body}
+			// very long header lines (an ordinary comment, a run of blanks, a run
+			// of line breaks) ahead of and between the directive lines
+			if st <= 2 {
+				for _, L := range []int{4095, 4096, 65535, 65536, 65537, 131072, 300000} {
+					variants = append(variants, ";"+strings.Repeat("x", L)+"\n"+d+body, strings.Repeat(" ", L)+d+body, strings.Repeat("\n", L)+d+body,
+						d+";"+strings.Repeat("y ", L/2)+"\n"+body)
+				}
+			}
 			for _, v := range variants {
 				n++
 				if got := c14Sig(w, false, v); got != want {
-					r.Violate("directive-layout", o.String(), "layout around leading directive comments changes the compiled program", map[string]interface{}{"source": v, "got": got, "want": want})
+					r.Violate("directive-layout", o.String(), "layout around leading directive comments changes the compiled program", map[string]interface{}{"source": trunc(v, 300), "source_length": len(v), "got": got, "want": want})
 				}
 			}
 			// ordinary header comments that merely CONTAIN the directive marker
